@@ -1,1 +1,789 @@
-//! (to be filled)
+//! C20 — futures deliver exactly one value and never strand a writer.
+//!
+//! Real code: `future_new`, `FutureWriter::{write, Drop}` (default value),
+//! `FutureWrite::{poll, cancel, Drop}`, `RawFutureWriter::{write,
+//! write_and_forget (DeferredWrite), Drop}`, `FutureWriteOp`, `RawFutureReader`
+//! (`into_future`, `Drop`), `RawFutureRead::{poll, cancel}`, `FutureReadOp`
+//! (future_support.rs); all of `WaitableOperation` (waitable.rs); `Cleanup`.
+//!
+//! The mock host is the `FutureVtable` the bindings generator would emit: a
+//! static table of `extern "C"` intrinsics plus lower/lift/dealloc_lists.
+//! Contract (component-model canonical ABI, `future.{new,read,write,
+//! cancel-read,cancel-write,drop-readable,drop-writable}`):
+//!
+//! * `future.write` answers COMPLETED (the host has taken the value out of the
+//!   buffer), DROPPED (the reader is gone; from then on every write answers
+//!   DROPPED) or BLOCKED; a blocked write later gets one COMPLETED or DROPPED
+//!   event while the writable end is registered;
+//! * `future.cancel-write` (sync) answers COMPLETED, DROPPED or CANCELLED and
+//!   traps unless a write is in progress and the end is registered nowhere;
+//! * `future.drop-writable` **traps unless a write COMPLETED or answered
+//!   DROPPED** (the rule the property is about), and while a write is in
+//!   progress or the end is still registered;
+//! * `future.read` answers COMPLETED (the host stored the value in the buffer)
+//!   or BLOCKED; event COMPLETED; `cancel-read` answers COMPLETED or CANCELLED;
+//!   `drop-readable` traps while a read is in progress or registered;
+//! * the host touches the buffer exactly when it completes the operation.
+
+use crate::mock_task as mt;
+use core::alloc::Layout;
+use core::future::{Future, IntoFuture};
+use core::pin::{pin, Pin};
+use core::task::{Context, Poll, Waker};
+use wit_bindgen::rt::async_support::{
+    future_new, raw_future_new, FutureVtable, FutureWriteCancel, FutureWriter, RawFutureWrite,
+    RawFutureWriteCancel,
+};
+
+const BLOCKED: u32 = 0xffff_ffff;
+const COMPLETED: u32 = 0;
+const DROPPED: u32 = 1;
+const CANCELLED: u32 = 2;
+
+const USER: u8 = 7;
+const DEFAULT: u8 = 9;
+const HOSTVAL: u8 = 0x2a;
+
+/// Payload with an ownership ledger.
+struct Val(u8);
+impl Drop for Val {
+    fn drop(&mut self) {
+        unsafe {
+            if self.0 == USER {
+                H.user_dropped += 1;
+            } else if self.0 == DEFAULT {
+                H.default_dropped += 1;
+            } else {
+                H.hostval_dropped += 1;
+            }
+        }
+    }
+}
+
+struct Host {
+    wh: u32,
+    rh: u32,
+    elem_size: usize,
+    // write side
+    write_in_progress: bool,
+    write_buf: *const u8,
+    writes_started: u32,
+    delivered: u32,
+    delivered_val: u8,
+    reader_dropped: bool,
+    writer_told_dropped: bool,
+    cancel_write_calls: u32,
+    drop_writable_calls: u32,
+    writer_handed_back: bool,
+    // read side
+    read_in_progress: bool,
+    read_buf: *mut u8,
+    reads_started: u32,
+    read_completed: u32,
+    cancel_read_calls: u32,
+    drop_readable_calls: u32,
+    // payload ledger
+    n_lower: u32,
+    n_lift: u32,
+    n_dealloc: u32,
+    defaults_made: u32,
+    user_dropped: u32,
+    default_dropped: u32,
+    hostval_dropped: u32,
+}
+
+static mut H: Host = Host {
+    wh: 0,
+    rh: 0,
+    elem_size: 1,
+    write_in_progress: false,
+    write_buf: core::ptr::null(),
+    writes_started: 0,
+    delivered: 0,
+    delivered_val: 0,
+    reader_dropped: false,
+    writer_told_dropped: false,
+    cancel_write_calls: 0,
+    drop_writable_calls: 0,
+    writer_handed_back: false,
+    read_in_progress: false,
+    read_buf: core::ptr::null_mut(),
+    reads_started: 0,
+    read_completed: 0,
+    cancel_read_calls: 0,
+    drop_readable_calls: 0,
+    n_lower: 0,
+    n_lift: 0,
+    n_dealloc: 0,
+    defaults_made: 0,
+    user_dropped: 0,
+    default_dropped: 0,
+    hostval_dropped: 0,
+};
+
+// ---- the "generated" vtable ----------------------------------------------------
+
+unsafe fn v_lower(value: Val, dst: *mut u8) {
+    H.n_lower += 1;
+    let id = value.0;
+    core::mem::forget(value);
+    if H.elem_size > 0 {
+        assert!(!dst.is_null());
+        *dst = id;
+    } else {
+        assert!(dst.is_null());
+        // zero-sized payload: the identity travels out of band
+        H.delivered_val = id;
+    }
+}
+unsafe fn v_dealloc_lists(dst: *mut u8) {
+    H.n_dealloc += 1;
+    assert!(H.delivered == 1, "lists of the written value released although the host did not take the value");
+    if H.elem_size > 0 {
+        // the buffer must still be alive when the lists inside it are released
+        let _ = *dst;
+    }
+}
+unsafe fn v_lift(src: *mut u8) -> Val {
+    H.n_lift += 1;
+    if H.elem_size > 0 {
+        Val(*src)
+    } else {
+        assert!(src.is_null());
+        Val(if H.reads_started > 0 { HOSTVAL } else { H.delivered_val })
+    }
+}
+
+unsafe fn host_take_written_value() {
+    assert!(H.delivered == 0, "host took two values from one future");
+    H.delivered = 1;
+    if H.elem_size > 0 {
+        H.delivered_val = *H.write_buf; // dangling-pointer check: buffer alive at completion
+    }
+}
+
+unsafe extern "C" fn v_new() -> u64 {
+    let w: u32 = kani::any();
+    let r: u32 = kani::any();
+    kani::assume(w >= 1 && w < (1 << 28) && r >= 1 && r < (1 << 28) && r != w);
+    H.wh = w;
+    H.rh = r;
+    ((w as u64) << 32) | (r as u64)
+}
+
+unsafe extern "C" fn v_start_write(h: u32, buf: *const u8) -> u32 {
+    assert!(h == H.wh, "future.write on a handle that is not the writable end");
+    assert!(H.drop_writable_calls == 0, "future.write after drop-writable");
+    assert!(!H.write_in_progress, "future.write while a write is in progress (host traps)");
+    assert!(H.delivered == 0, "future.write after the value was already delivered (host traps)");
+    H.writes_started += 1;
+    H.write_buf = buf;
+    mt::EXPECT_WAITABLE = h;
+    if H.reader_dropped {
+        H.writer_told_dropped = true;
+        return DROPPED;
+    }
+    let ans: u32 = kani::any();
+    kani::assume(ans == COMPLETED || ans == DROPPED || ans == BLOCKED);
+    if ans == COMPLETED {
+        host_take_written_value();
+    } else if ans == DROPPED {
+        H.reader_dropped = true;
+        H.writer_told_dropped = true;
+    } else {
+        H.write_in_progress = true;
+    }
+    ans
+}
+
+unsafe extern "C" fn v_cancel_write(h: u32) -> u32 {
+    assert!(h == H.wh);
+    assert!(H.write_in_progress, "future.cancel-write without a write in progress (host traps)");
+    assert!(!mt::registered_anywhere(h), "future.cancel-write while the end is still registered with a task");
+    H.cancel_write_calls += 1;
+    H.write_in_progress = false;
+    let ans: u32 = kani::any();
+    kani::assume(ans == COMPLETED || ans == DROPPED || ans == CANCELLED);
+    if ans == COMPLETED {
+        host_take_written_value();
+    } else if ans == DROPPED {
+        H.reader_dropped = true;
+        H.writer_told_dropped = true;
+    }
+    ans
+}
+
+unsafe extern "C" fn v_drop_writable(h: u32) {
+    assert!(h == H.wh);
+    assert!(!H.write_in_progress, "future.drop-writable while a write is in progress (host traps)");
+    assert!(
+        H.delivered == 1 || H.writer_told_dropped,
+        "future.drop-writable before a value was delivered or the reader was seen dropped (host traps)"
+    );
+    assert!(!mt::registered_anywhere(h), "future.drop-writable while the end is still registered with a task");
+    assert!(H.drop_writable_calls == 0, "future.drop-writable twice");
+    H.drop_writable_calls += 1;
+}
+
+unsafe fn host_complete_read() {
+    assert!(H.read_completed == 0);
+    H.read_completed = 1;
+    if H.elem_size > 0 {
+        *H.read_buf = HOSTVAL; // dangling-pointer check: buffer alive at completion
+    }
+}
+
+unsafe extern "C" fn v_start_read(h: u32, buf: *mut u8) -> u32 {
+    assert!(h == H.rh, "future.read on a handle that is not the readable end");
+    assert!(H.drop_readable_calls == 0);
+    assert!(!H.read_in_progress, "future.read while a read is in progress (host traps)");
+    assert!(H.read_completed == 0, "future.read after the value was already read (host traps)");
+    H.reads_started += 1;
+    H.read_buf = buf;
+    mt::EXPECT_WAITABLE = h;
+    let ans: u32 = kani::any();
+    kani::assume(ans == COMPLETED || ans == BLOCKED);
+    if ans == COMPLETED {
+        host_complete_read();
+    } else {
+        H.read_in_progress = true;
+    }
+    ans
+}
+
+unsafe extern "C" fn v_cancel_read(h: u32) -> u32 {
+    assert!(h == H.rh);
+    assert!(H.read_in_progress, "future.cancel-read without a read in progress (host traps)");
+    assert!(!mt::registered_anywhere(h), "future.cancel-read while the end is still registered with a task");
+    H.cancel_read_calls += 1;
+    H.read_in_progress = false;
+    let ans: u32 = kani::any();
+    kani::assume(ans == COMPLETED || ans == CANCELLED);
+    if ans == COMPLETED {
+        host_complete_read();
+    }
+    ans
+}
+
+unsafe extern "C" fn v_drop_readable(h: u32) {
+    assert!(h == H.rh);
+    assert!(!H.read_in_progress, "future.drop-readable while a read is in progress (host traps)");
+    assert!(!mt::registered_anywhere(h), "future.drop-readable while the end is still registered with a task");
+    assert!(H.drop_readable_calls == 0, "future.drop-readable twice");
+    H.drop_readable_calls += 1;
+}
+
+macro_rules! vtable {
+    ($name:ident, $t:ty) => {
+        static $name: FutureVtable<Val> = FutureVtable {
+            layout: Layout::new::<$t>(),
+            lower: v_lower,
+            dealloc_lists: v_dealloc_lists,
+            lift: v_lift,
+            start_write: v_start_write,
+            start_read: v_start_read,
+            cancel_write: v_cancel_write,
+            cancel_read: v_cancel_read,
+            drop_writable: v_drop_writable,
+            drop_readable: v_drop_readable,
+            new: v_new,
+        };
+    };
+}
+vtable!(VT1, u8);
+vtable!(VT0, ());
+
+fn default_val() -> Val {
+    unsafe {
+        H.defaults_made += 1;
+    }
+    Val(DEFAULT)
+}
+
+// ---- host events ---------------------------------------------------------------
+
+unsafe fn write_event() {
+    assert!(H.write_in_progress && mt::L[0].reg_set, "harness: no write event possible here");
+    H.write_in_progress = false;
+    let code: u32 = kani::any();
+    kani::assume(code == COMPLETED || code == DROPPED);
+    if code == COMPLETED {
+        host_take_written_value();
+    } else {
+        H.reader_dropped = true;
+        H.writer_told_dropped = true;
+    }
+    mt::deliver(0, code);
+}
+
+unsafe fn read_event() {
+    assert!(H.read_in_progress && mt::L[0].reg_set, "harness: no read event possible here");
+    H.read_in_progress = false;
+    host_complete_read();
+    mt::deliver(0, COMPLETED);
+}
+
+unsafe fn install_task(t1: &mut mt::wasip3_task, t2: &mut mt::wasip3_task_v2) -> *mut mt::wasip3_task {
+    let task: *mut mt::wasip3_task = if kani::any() { t1 } else { (t2 as *mut mt::wasip3_task_v2).cast() };
+    mt::CUR = task;
+    mt::CLONE_DISTINCT = false;
+    task
+}
+
+fn pending_is_registered() {
+    unsafe {
+        assert!(mt::L[0].reg_set, "pending operation is not registered with the task");
+    }
+}
+
+// ---- write side ----------------------------------------------------------------
+
+/// What the user-level write ended as.
+#[derive(Clone, Copy, PartialEq)]
+enum WEnd {
+    None,
+    Ok,
+    ErrReturned, // FutureWriteError { value } handed back
+    CancelAlreadySent,
+    CancelDropped,   // value handed back
+    CancelCancelled, // value and writer handed back
+}
+
+type RawW = RawFutureWrite<&'static FutureVtable<Val>>;
+
+unsafe fn take_back(v: Val, held: &mut u32) {
+    assert!(v.0 == USER, "a different value was handed back");
+    *held += 1;
+    core::mem::forget(v);
+}
+
+// ---- (1) raw API: RawFutureWriter::write / RawFutureWrite::{poll, cancel} -----------
+//
+// Scripts end with an explicit `cancel()` (`C`) or with the write completed;
+// when `cancel()` hands the raw writable end back (`Cancelled(value, writer)`)
+// the harness keeps it (`mem::forget`): what happens to an unwritten writer is
+// the typed API's business (harnesses (2) below).
+
+unsafe fn raw_poll(f: Pin<&mut RawW>, cx: &mut Context<'_>, held: &mut u32) -> WEnd {
+    match f.poll(cx) {
+        Poll::Ready(Ok(())) => WEnd::Ok,
+        Poll::Ready(Err(e)) => {
+            take_back(e.value, held);
+            WEnd::ErrReturned
+        }
+        Poll::Pending => {
+            pending_is_registered();
+            WEnd::None
+        }
+    }
+}
+
+unsafe fn raw_cancel(f: Pin<&mut RawW>, held: &mut u32) -> WEnd {
+    match f.cancel() {
+        RawFutureWriteCancel::AlreadySent => WEnd::CancelAlreadySent,
+        RawFutureWriteCancel::Dropped(v) => {
+            take_back(v, held);
+            WEnd::CancelDropped
+        }
+        RawFutureWriteCancel::Cancelled(v, w) => {
+            take_back(v, held);
+            H.writer_handed_back = true;
+            core::mem::forget(w);
+            WEnd::CancelCancelled
+        }
+    }
+}
+
+macro_rules! wsteps {
+    ($f:ident, $cx:ident, $held:ident, $end:ident;) => {};
+    ($f:ident, $cx:ident, $held:ident, $end:ident; P $($rest:tt)*) => {
+        $end = raw_poll($f.as_mut(), &mut $cx, &mut $held);
+        if $end == WEnd::None {
+            wsteps!($f, $cx, $held, $end; $($rest)*);
+        }
+    };
+    ($f:ident, $cx:ident, $held:ident, $end:ident; E $($rest:tt)*) => {
+        write_event();
+        wsteps!($f, $cx, $held, $end; $($rest)*);
+    };
+    ($f:ident, $cx:ident, $held:ident, $end:ident; C $($rest:tt)*) => {
+        $end = raw_cancel($f.as_mut(), &mut $held);
+    };
+}
+
+/// After the user-level operation is gone a default-value write may still be
+/// in flight (`DeferredWrite`, kept alive by the waker it registered): the
+/// host resolves it.
+unsafe fn settle_deferred_write() {
+    if H.write_in_progress {
+        assert!(mt::L[0].reg_set, "deferred write is pending but not registered");
+        write_event();
+    }
+}
+
+unsafe fn finish_write(end: WEnd, held: u32, wrote: bool) {
+    settle_deferred_write();
+    mt::OP_ALIVE = false;
+    mt::assert_quiescent();
+    assert!(!H.write_in_progress);
+    if H.writer_handed_back {
+        // cancel() succeeded and returned the writable end to the caller
+        assert!(H.drop_writable_calls == 0 && H.delivered == 0 && end == WEnd::CancelCancelled);
+    } else {
+        // the writable end is released exactly once, and only when allowed
+        // (the mock traps otherwise)
+        assert!(H.drop_writable_calls == 1, "writable end must be dropped exactly once");
+        // one value at most reached the reader; if the reader did not go away, one did
+        assert!(H.delivered == 1 || H.reader_dropped, "writer gone, reader alive, no value delivered: stranded future");
+    }
+    assert!(H.delivered <= 1);
+    // ownership of the user's value
+    if wrote {
+        let consumed = if H.delivered == 1 && H.delivered_val == USER { 1 } else { 0 };
+        assert!(consumed + held + H.user_dropped == 1, "the written value must end up in exactly one place");
+    } else {
+        assert!(H.user_dropped == 0 && held == 0);
+    }
+    // ownership of default values
+    let consumed_d = if H.delivered == 1 && H.delivered_val == DEFAULT { 1 } else { 0 };
+    assert!(consumed_d + H.default_dropped == H.defaults_made, "a default value was leaked or dropped twice");
+    assert!(H.defaults_made <= 1);
+    // every lowered slot is lifted back xor released after delivery
+    assert!(H.n_lower == H.n_lift + H.n_dealloc, "lowered slots must be lifted back or released exactly once");
+    assert!(H.n_dealloc == H.delivered);
+    // outcome reported to the user matches what the host did
+    match end {
+        WEnd::Ok | WEnd::CancelAlreadySent => assert!(H.delivered == 1 && H.delivered_val == USER, "reported as sent but the host did not take the value"),
+        WEnd::ErrReturned | WEnd::CancelDropped => assert!(H.reader_dropped && H.delivered == 0, "reported 'reader dropped' but the host did not say so"),
+        WEnd::CancelCancelled => assert!(H.delivered == 0, "reported 'cancelled' but the host took the value"),
+        WEnd::None => {}
+    }
+}
+
+macro_rules! c20w {
+    ($name:ident, $vt:ident, $size:expr, [$($script:tt)*], $covers:expr) => {
+        #[kani::proof]
+        #[kani::unwind(3)]
+        #[kani::stub(wit_bindgen::rt::async_support::cabi::wasip3_task_set, crate::mock_task::stub_task_set)]
+        fn $name() {
+            unsafe {
+                H.elem_size = $size;
+                let mut t1 = mt::new_v1_a();
+                let mut t2 = mt::new_v2_a();
+                let _task = install_task(&mut t1, &mut t2);
+                let mut cx = Context::from_waker(Waker::noop());
+                let (tx, rx) = raw_future_new(&$vt);
+                rx.take_handle(); // the readable end was handed to the peer
+                let mut held: u32 = 0;
+                #[allow(unused_assignments, unused_mut)]
+                let mut end = WEnd::None;
+                {
+                    #[allow(unused_mut)]
+                    let mut f = pin!(tx.write(Val(USER)));
+                    wsteps!(f, cx, held, end; $($script)*);
+                    assert!(end != WEnd::None, "harness: raw scripts must run the write to an end");
+                }
+                finish_write(end, held, true);
+                let f: fn() = $covers;
+                f();
+            }
+        }
+    };
+}
+
+// vacuity witnesses
+fn cw_pc() {
+    unsafe {
+        kani::cover!(H.delivered == 1 && H.writes_started == 1 && H.cancel_write_calls == 0, "write completed at once");
+        kani::cover!(H.writer_told_dropped && H.cancel_write_calls == 0, "reader already gone");
+        kani::cover!(H.cancel_write_calls == 1 && H.delivered == 1, "cancel(): already sent");
+        kani::cover!(H.cancel_write_calls == 1 && H.reader_dropped, "cancel(): reader dropped, value handed back");
+        kani::cover!(H.cancel_write_calls == 1 && H.writer_handed_back, "cancel(): cancelled, value and writer handed back");
+    }
+}
+fn cw_pec() {
+    unsafe {
+        kani::cover!(H.cancel_write_calls == 0 && mt::L[0].n_delivered == 1 && H.delivered == 1, "cancel() with the completion already queued");
+        kani::cover!(H.cancel_write_calls == 0 && mt::L[0].n_delivered == 1 && H.reader_dropped, "cancel() with a reader-dropped event already queued");
+    }
+}
+fn cw_pep() {
+    unsafe {
+        kani::cover!(mt::L[0].n_delivered == 1 && H.delivered == 1, "blocked write completed by an event and polled");
+        kani::cover!(mt::L[0].n_delivered == 1 && H.reader_dropped && H.user_dropped == 0, "blocked write: reader dropped, value handed back");
+    }
+}
+fn cw_ppc() {
+    unsafe {
+        kani::cover!(mt::L[0].n_register == 2 && H.cancel_write_calls == 1, "spurious re-poll, then cancel()");
+    }
+}
+fn cw_c() {
+    unsafe {
+        kani::cover!(H.writes_started == 0 && H.writer_handed_back, "cancel() before the first poll");
+    }
+}
+
+c20w!(c20_rawwrite_c, VT1, 1, [C], cw_c);
+c20w!(c20_rawwrite_pc, VT1, 1, [P C], cw_pc);
+c20w!(c20_rawwrite_pec, VT1, 1, [P E C], cw_pec);
+c20w!(c20_rawwrite_pep, VT1, 1, [P E P], cw_pep);
+c20w!(c20_rawwrite_zst_pc, VT0, 0, [P C], cw_pc);
+c20w!(c20_deep_rawwrite_ppc, VT1, 1, [P P C], cw_ppc);
+
+// ---- (2) typed API: FutureWriter / FutureWrite and the default value ------------------
+//
+// `DeferredWrite` (an `Arc` that is its own waker) is reachable here.
+
+unsafe fn typed_setup(t1: &mut mt::wasip3_task, t2: &mut mt::wasip3_task_v2) -> FutureWriter<Val> {
+    H.elem_size = 1;
+    let _task = install_task(t1, t2);
+    let (tx, rx) = future_new(default_val, &VT1);
+    rx.take_handle();
+    tx
+}
+
+/// A `FutureWriter` that is never written.
+#[kani::proof]
+#[kani::unwind(2)]
+#[kani::stub(wit_bindgen::rt::async_support::cabi::wasip3_task_set, crate::mock_task::stub_task_set)]
+fn c20_typed_writer_dropped_unwritten() {
+    unsafe {
+        let mut t1 = mt::new_v1_a();
+        let mut t2 = mt::new_v2_a();
+        let tx = typed_setup(&mut t1, &mut t2);
+        drop(tx);
+        finish_write(WEnd::None, 0, false);
+        kani::cover!(H.delivered == 1 && H.delivered_val == DEFAULT && mt::L[0].n_delivered == 0, "default delivered at once");
+        kani::cover!(H.delivered == 1 && H.delivered_val == DEFAULT && mt::L[0].n_delivered == 1, "default write blocked, completed by an event");
+        kani::cover!(H.default_dropped == 1 && mt::L[0].n_delivered == 0, "default write: reader gone");
+        kani::cover!(H.default_dropped == 1 && mt::L[0].n_delivered == 1, "default write blocked, then the reader went away");
+    }
+}
+
+/// A `FutureWrite` dropped before its first poll.
+#[kani::proof]
+#[kani::unwind(2)]
+#[kani::stub(wit_bindgen::rt::async_support::cabi::wasip3_task_set, crate::mock_task::stub_task_set)]
+fn c20_typed_write_dropped_unpolled() {
+    unsafe {
+        let mut t1 = mt::new_v1_a();
+        let mut t2 = mt::new_v2_a();
+        let tx = typed_setup(&mut t1, &mut t2);
+        drop(tx.write(Val(USER)));
+        finish_write(WEnd::None, 0, true);
+        kani::cover!(H.user_dropped == 1 && H.delivered == 1 && H.delivered_val == DEFAULT, "user value dropped, default delivered");
+        kani::cover!(H.user_dropped == 1 && H.default_dropped == 1, "user value dropped, default found the reader gone");
+    }
+}
+
+/// A `FutureWrite` polled once and dropped mid-flight.
+#[kani::proof]
+#[kani::unwind(2)]
+#[kani::stub(wit_bindgen::rt::async_support::cabi::wasip3_task_set, crate::mock_task::stub_task_set)]
+fn c20_typed_write_dropped_midflight() {
+    unsafe {
+        let mut t1 = mt::new_v1_a();
+        let mut t2 = mt::new_v2_a();
+        let tx = typed_setup(&mut t1, &mut t2);
+        let mut cx = Context::from_waker(Waker::noop());
+        let mut held = 0;
+        let mut end = WEnd::None;
+        {
+            let mut f = pin!(tx.write(Val(USER)));
+            match f.as_mut().poll(&mut cx) {
+                Poll::Ready(Ok(())) => end = WEnd::Ok,
+                Poll::Ready(Err(e)) => {
+                    take_back(e.value, &mut held);
+                    end = WEnd::ErrReturned;
+                }
+                Poll::Pending => pending_is_registered(),
+            }
+        }
+        finish_write(end, held, true);
+        kani::cover!(H.cancel_write_calls == 1 && H.delivered == 1 && H.delivered_val == USER, "dropped mid-flight, cancel lost: value sent");
+        kani::cover!(H.cancel_write_calls == 1 && H.defaults_made == 1 && H.delivered == 1 && H.delivered_val == DEFAULT, "dropped mid-flight, cancelled: default value delivered instead");
+        kani::cover!(H.cancel_write_calls == 1 && H.defaults_made == 1 && H.default_dropped == 1, "dropped mid-flight, cancelled, default found the reader gone");
+        kani::cover!(H.defaults_made == 1 && mt::L[0].n_delivered == 1, "default write blocked, completed later by an event (DeferredWrite)");
+    }
+}
+
+/// `FutureWrite::cancel()` and then the returned `FutureWriter` dropped.
+#[kani::proof]
+#[kani::unwind(2)]
+#[kani::stub(wit_bindgen::rt::async_support::cabi::wasip3_task_set, crate::mock_task::stub_task_set)]
+fn c20_typed_cancel_then_drop_writer() {
+    unsafe {
+        let mut t1 = mt::new_v1_a();
+        let mut t2 = mt::new_v2_a();
+        let tx = typed_setup(&mut t1, &mut t2);
+        let mut cx = Context::from_waker(Waker::noop());
+        let mut held = 0;
+        let mut end = WEnd::None;
+        {
+            let mut f = pin!(tx.write(Val(USER)));
+            match f.as_mut().poll(&mut cx) {
+                Poll::Ready(Ok(())) => end = WEnd::Ok,
+                Poll::Ready(Err(e)) => {
+                    take_back(e.value, &mut held);
+                    end = WEnd::ErrReturned;
+                }
+                Poll::Pending => {
+                    pending_is_registered();
+                    match f.as_mut().cancel() {
+                        FutureWriteCancel::AlreadySent => end = WEnd::CancelAlreadySent,
+                        FutureWriteCancel::Dropped(v) => {
+                            take_back(v, &mut held);
+                            end = WEnd::CancelDropped;
+                        }
+                        FutureWriteCancel::Cancelled(v, w) => {
+                            take_back(v, &mut held);
+                            end = WEnd::CancelCancelled;
+                            drop(w); // unwritten writer: must deliver the default value
+                        }
+                    }
+                }
+            }
+        }
+        finish_write(end, held, true);
+        kani::cover!(end == WEnd::CancelCancelled && H.delivered == 1 && H.delivered_val == DEFAULT, "cancelled; returned writer dropped; default delivered");
+        kani::cover!(end == WEnd::CancelAlreadySent, "cancel(): already sent");
+        kani::cover!(end == WEnd::CancelDropped, "cancel(): reader dropped");
+    }
+}
+
+// ---- read side -----------------------------------------------------------------
+
+#[derive(Clone, Copy, PartialEq)]
+enum REnd {
+    None,
+    Value,
+    CancelValue,
+    CancelReader,
+}
+
+macro_rules! rsteps {
+    ($f:ident, $cx:ident, $held:ident, $end:ident;) => {};
+    ($f:ident, $cx:ident, $held:ident, $end:ident; P $($rest:tt)*) => {
+        match $f.as_mut().poll(&mut $cx) {
+            Poll::Ready(v) => {
+                assert!(v.0 == HOSTVAL, "read yields a value the host did not write");
+                $held += 1;
+                core::mem::forget(v);
+                $end = REnd::Value;
+            }
+            Poll::Pending => {
+                pending_is_registered();
+                rsteps!($f, $cx, $held, $end; $($rest)*);
+            }
+        }
+    };
+    ($f:ident, $cx:ident, $held:ident, $end:ident; E $($rest:tt)*) => {
+        read_event();
+        rsteps!($f, $cx, $held, $end; $($rest)*);
+    };
+    ($f:ident, $cx:ident, $held:ident, $end:ident; C $($rest:tt)*) => {
+        match $f.as_mut().cancel() {
+            Ok(v) => {
+                assert!(v.0 == HOSTVAL);
+                $held += 1;
+                core::mem::forget(v);
+                $end = REnd::CancelValue;
+            }
+            Err(reader) => {
+                $end = REnd::CancelReader;
+                drop(reader); // the readable end comes back and is released by the user
+            }
+        }
+    };
+}
+
+unsafe fn finish_read(end: REnd, held: u32) {
+    mt::OP_ALIVE = false;
+    mt::assert_quiescent();
+    assert!(!H.read_in_progress, "read future gone but the host still has a read in progress");
+    assert!(H.drop_readable_calls == 1, "readable end must be dropped exactly once");
+    // the value is lifted exactly once iff the host completed the read
+    assert!(H.n_lift == H.read_completed, "value lifted exactly once iff the host completed the read");
+    assert!(held + H.hostval_dropped == H.n_lift, "the read value must be owned exactly once");
+    assert!(H.n_lower == 0 && H.n_dealloc == 0);
+    match end {
+        REnd::Value | REnd::CancelValue => assert!(H.read_completed == 1 && held == 1),
+        REnd::CancelReader => assert!(H.read_completed == 0, "cancel reported 'cancelled' although the host completed the read"),
+        REnd::None => {}
+    }
+}
+
+macro_rules! c20r {
+    ($name:ident, $vt:ident, $size:expr, [$($script:tt)*], $covers:expr) => {
+        #[kani::proof]
+        #[kani::unwind(3)]
+        #[kani::stub(wit_bindgen::rt::async_support::cabi::wasip3_task_set, crate::mock_task::stub_task_set)]
+        fn $name() {
+            unsafe {
+                H.elem_size = $size;
+                let mut t1 = mt::new_v1_a();
+                let mut t2 = mt::new_v2_a();
+                let _task = install_task(&mut t1, &mut t2);
+                let mut cx = Context::from_waker(Waker::noop());
+                let (tx, rx) = raw_future_new(&$vt);
+                core::mem::forget(tx); // the writable end was handed to the peer
+                let mut held: u32 = 0;
+                #[allow(unused_assignments, unused_mut)]
+                let mut end = REnd::None;
+                {
+                    #[allow(unused_mut)]
+                    let mut f = pin!(rx.into_future());
+                    rsteps!(f, cx, held, end; $($script)*);
+                }
+                finish_read(end, held);
+                let f: fn() = $covers;
+                f();
+            }
+        }
+    };
+}
+
+fn cr_d() {
+    unsafe {
+        kani::cover!(H.reads_started == 0 && H.drop_readable_calls == 1, "reader dropped unread");
+    }
+}
+fn cr_pd() {
+    unsafe {
+        kani::cover!(H.read_completed == 1 && H.cancel_read_calls == 0 && mt::L[0].n_register == 0, "value available at once");
+        kani::cover!(H.cancel_read_calls == 1 && H.read_completed == 1 && H.hostval_dropped == 1, "read dropped mid-flight, cancel lost: value lifted and dropped");
+        kani::cover!(H.cancel_read_calls == 1 && H.read_completed == 0, "read dropped mid-flight, cancelled");
+    }
+}
+fn cr_ped() {
+    unsafe {
+        kani::cover!(mt::L[0].n_delivered == 1 && H.cancel_read_calls == 0 && H.hostval_dropped == 1, "completion queued when the read future is dropped");
+    }
+}
+fn cr_pep() {
+    unsafe {
+        kani::cover!(mt::L[0].n_delivered == 1 && H.read_completed == 1 && H.hostval_dropped == 0, "blocked read completed by an event and polled");
+    }
+}
+fn cr_pc() {
+    unsafe {
+        kani::cover!(H.cancel_read_calls == 1 && H.read_completed == 1, "cancel(): value arrived");
+        kani::cover!(H.cancel_read_calls == 1 && H.read_completed == 0 && H.drop_readable_calls == 1, "cancel(): cancelled, reader handed back");
+    }
+}
+fn cr_pec() {
+    unsafe {
+        kani::cover!(H.cancel_read_calls == 0 && mt::L[0].n_delivered == 1 && H.read_completed == 1, "cancel() with the completion already queued");
+    }
+}
+
+c20r!(c20_read_d, VT1, 1, [], cr_d);
+c20r!(c20_read_c, VT1, 1, [C], cr_d);
+c20r!(c20_read_pd, VT1, 1, [P], cr_pd);
+c20r!(c20_read_ped, VT1, 1, [P E], cr_ped);
+c20r!(c20_read_pepd, VT1, 1, [P E P], cr_pep);
+c20r!(c20_read_pc, VT1, 1, [P C], cr_pc);
+c20r!(c20_read_pec, VT1, 1, [P E C], cr_pec);
+c20r!(c20_read_zst_pd, VT0, 0, [P], cr_pd);
+c20r!(c20_deep_read_ppd, VT1, 1, [P P], cr_pd);
